@@ -6,7 +6,7 @@ From Osmo Require Import Base.DecModel CL.CLPool CL.CLSwap CL.CLStep CLR.Accum C
   C08.Proj C08.Telescope C08.View C08.Static C08.Ops C08.OpInside C08.SwapTrace C08.Crux C08.Check
   C08.Claim C08.Conseq C08.Frame C08.Never C08.SwapWf C08.Dom C08.StaticOk C08.Final
   C07.Base C08.Paid C08.PaidOps C08.PaidSwap C08.PaidHist C08.Modify C08.Twins
-  C08.IncAcc C08.Inc C08.IncList C08.IncStage C08.IncOps C08.IncSwap C08.IncHist C08.UpNever.
+  C08.IncAcc C08.Inc C08.IncList C08.IncStage C08.IncOps C08.IncSwap C08.IncHist C08.UpNever C08.UpTwins.
 Open Scope Z_scope.
 
 (* ---- the reward model extends the shared pool model conservatively ---- *)
@@ -474,3 +474,47 @@ Theorem C08_new_position_no_incentives_yet : forall rs owner a0 a1 m0 m1 lo hi r
   r_create rs owner a0 a1 m0 m1 lo hi = Some (rs', c) -> zero_urec rs' (cr_id c) (cr_lower c) (cr_upper c).
 Proof. exact create_zero_urec. Qed.
 Print Assumptions C08_new_position_no_incentives_yet.
+
+(* ==== identical positions, identical incentives (C08/UpTwins.v) ==== *)
+Theorem C08_identical_positions_identical_incentives : forall rs id1 id2 q1 q2 x1 x2,
+  pos_get (s_pos (r_base rs)) id1 = Some q1 -> pos_get (s_pos (r_base rs)) id2 = Some q2 ->
+  ps_lower q1 = ps_lower q2 -> ps_upper q1 = ps_upper q2 -> ps_join q1 = ps_join q2 ->
+  (forall u, acc_get (acc_u u (r_rw rs)) id1 = acc_get (acc_u u (r_rw rs)) id2) ->
+  claimable_incentives rs id1 = Some x1 -> claimable_incentives rs id2 = Some x2 -> x1 = x2.
+Proof. exact identical_positions_identical_incentives. Qed.
+Print Assumptions C08_identical_positions_identical_incentives.
+
+Theorem C08_identical_incentives_over_history : forall ops rs id1 id2 q1 q2 x1 x2, RInv rs ->
+  id1 < s_next_id (r_base rs) -> id2 < s_next_id (r_base rs) ->
+  (forall u, acc_get (acc_u u (r_rw rs)) id1 = acc_get (acc_u u (r_rw rs)) id2) ->
+  hist_untouchedI ops id1 = true -> hist_untouchedI ops id2 = true ->
+  let rs' := rrun rs ops in
+  pos_get (s_pos (r_base rs')) id1 = Some q1 -> pos_get (s_pos (r_base rs')) id2 = Some q2 ->
+  ps_lower q1 = ps_lower q2 -> ps_upper q1 = ps_upper q2 -> ps_join q1 = ps_join q2 ->
+  claimable_incentives rs' id1 = Some x1 -> claimable_incentives rs' id2 = Some x2 -> x1 = x2.
+Proof. exact identical_incentives_over_history. Qed.
+Print Assumptions C08_identical_incentives_over_history.
+
+(* twins created in the same block; two incentives on different uptimes, time, a crossing swap, a third party's collect: equal records at
+   the start (all six accumulators), untouched, and the same non-zero incentives offered at the end *)
+Definition ex_rs2 : rstate :=
+  rrun (rinit 0x64 0x71afd498d0000 0x2cd76fe086b93ce2f768a00b22a00000000000 0x2cd76fe086b93ce2f768a00b22a00000000000
+          [(0xc9f2c9cd04674edea40000000, 0xc9f2c9cd04674edea40000000); (0xc9f2c9cd04674edea40000000, 0xc9f2c9cd04674edea40000000);
+           (0xc9f2c9cd04674edea40000000, 0xc9f2c9cd04674edea40000000)] 0x6553f100)
+       [RBase (OCreate 0x0 0x3b9aca00 0x3b9aca00 0x0 0x0 (-0x186a0) 0x186a0);
+        RBase (OCreate 0x1 0x989680 0x989680 0x0 0x0 (-0x3e8) 0x7d0);
+        RBase (OCreate 0x2 0x989680 0x989680 0x0 0x0 (-0x3e8) 0x7d0)].
+Definition ex_ops2 : list rop :=
+  [RIncentive 0x2 0x0 0xf4240 0xde0b6b3a7640000 0x0 0x0; RIncentive 0x2 0x1 0xf4240 0xde0b6b3a7640000 0x0 0x3; RBase (OTime 0x64);
+   RBase (OSwapIn 0x2 false 0x1c9c380 0x1); RBase (OTime 0x32); RCollectInc 0x0 [0x1]; RBase (OTime 0x10)].
+Example C08_identical_incentives_nonvacuous :
+  (forall u, acc_get (acc_u u (r_rw ex_rs2)) 2 = acc_get (acc_u u (r_rw ex_rs2)) 3) /\
+  hist_untouchedI ex_ops2 2 = true /\ hist_untouchedI ex_ops2 3 = true /\
+  exists x, claimable_incentives (rrun ex_rs2 ex_ops2) 2 = Some x /\ claimable_incentives (rrun ex_rs2 ex_ops2) 3 = Some x /\
+            0 < fst (fst x) + fst (snd x) /\ 0 < snd (fst x) + snd (snd x).
+Proof.
+  split.
+  { intro u. do 6 (destruct u as [|u]; [vm_compute; reflexivity|]). vm_compute. destruct u; reflexivity. }
+  split; [reflexivity|]. split; [reflexivity|].
+  eexists. split; [vm_compute; reflexivity|]. split; [vm_compute; reflexivity|]. split; vm_compute; reflexivity.
+Qed.
